@@ -17,7 +17,8 @@
 //!           successive fill_buf slices have these sizes, cyclically) | all (Cursor)
 //! Observation: len=<n> fnv=<hash of the file bytes> [ft=<tok>:<f32 bits>,..] obs=<o>;<o>..|<o>;..|=
 //!   one `|`-separated group per chunking (`=`: identical to the first group); outcome
-//!   o = R:<idhex>:<deschex or ->:<rows>:<cells row-major, K per row> | E:io|nom|inv | END | PANIC | CAP
+//!   o = R:<idhex>:<deschex or ->:<rows>:<cells row-major, K per row> | E:io|nom|inv | END | PANIC | CAP | HANG
+//!   (HANG: the case did not finish within the watchdog limit LM_IO_WATCHDOG_S, default 180 s)
 //!   next() is called until END, or `post` more times after the first error, or the cap of
 //!   len + 2 (+ post) calls (CAP).  ft: Rust's str::parse::<f32> of every float token that
 //!   follows a TAB (the oracle of the UniPROBE model), cells of UniPROBE records are f32 bits.
@@ -1001,9 +1002,27 @@ fn main() {
             use std::io::Write;
             let out = std::io::stdout();
             let mut out = out.lock();
+            // every case runs in its own thread under a watchdog: a call that never returns is a
+            // HANG observation (the stuck thread is abandoned and dies with the process)
+            let limit = std::time::Duration::from_secs(
+                std::env::var("LM_IO_WATCHDOG_S").ok().and_then(|s| s.parse().ok()).unwrap_or(180),
+            );
             for line in stdin_lines() {
-                writeln!(out, "{}", run_line(&line)).unwrap();
+                let (tx, rx) = std::sync::mpsc::channel();
+                let l2 = line.clone();
+                std::thread::Builder::new()
+                    .stack_size(64 << 20)
+                    .spawn(move || {
+                        let _ = tx.send(run_line(&l2));
+                    })
+                    .unwrap();
+                match rx.recv_timeout(limit) {
+                    Ok(r) => writeln!(out, "{}", r).unwrap(),
+                    Err(_) => writeln!(out, "{} => len=0 fnv=0 obs=HANG", line).unwrap(),
+                }
             }
+            out.flush().unwrap();
+            std::process::exit(0);
         }
         "selftest" => std::process::exit(selftest()),
         _ => {
